@@ -211,3 +211,11 @@ package ast
 //@   modifies nothing
 //@   use sprintfDecimal(num)
 //@   ensures strconv.parseI64(result) == num
+
+// ---- C09: a duration bound prints as an exact multiple of a unit ----------------------------------------------------
+// Whenever a unit is chosen, the printed number times the unit is the duration (nothing is truncated), so the text
+// reads back as the same bound.
+//@ func formatDurationBound(nanos)
+//@   modifies nothing
+//@   opt nosafety
+//@   guard return in loop 1: u.size > 0 && (nanos / u.size) * u.size == nanos && result == sprintf("%d%s", nanos / u.size, u.suffix)
